@@ -45,6 +45,9 @@ fn main() {
             let code = match id.as_str() {
                 "C01" | "C02" | "C03" | "C10" | "C11" => e1::driver::run_check(&id, &tier),
                 "C12" => e1::faults::run_check(&tier),
+                "C05" => simcore::e2::c05::run_check(&tier),
+                "C06" => simcore::e2::c06::run_check(&tier),
+                "C20" => simcore::e2::c20::run_check(&tier),
                 other => harness_fail(&format!("unknown check {other}")),
             };
             cleanup_scratch();
@@ -78,6 +81,25 @@ fn replay(file: &str) -> i32 {
         "e1" | "e1-fault" => {
             let argv = vec!["worker".to_string(), format!("{engine}-replay"), file.to_string()];
             let out: Result<Vec<serde_json::Value>, _> = simcore::pool::run_workers(vec![argv], true);
+            match out {
+                Ok(r) => {
+                    let reproduced = r[0].get("reproduced").and_then(serde_json::Value::as_bool).unwrap_or(false);
+                    println!("{}", serde_json::to_string_pretty(&r[0]).unwrap_or_default());
+                    if reproduced {
+                        let p = v.get("property").and_then(|p| p.as_str()).unwrap_or("?");
+                        println!("VIOLATION property={p} replay={file}");
+                        1
+                    } else {
+                        println!("NOT REPRODUCED");
+                        0
+                    }
+                }
+                Err(e) => harness_fail(&format!("{e:?}")),
+            }
+        }
+        "e2-c05" | "e2-c06" | "e2-c20" | "e2-c12" => {
+            let argv = vec!["worker".to_string(), engine.to_string(), "--replay".to_string(), file.to_string()];
+            let out: Result<Vec<serde_json::Value>, _> = simcore::pool::run_workers(vec![argv], false);
             match out {
                 Ok(r) => {
                     let reproduced = r[0].get("reproduced").and_then(serde_json::Value::as_bool).unwrap_or(false);
@@ -160,6 +182,10 @@ fn worker(args: &[String]) -> i32 {
             0
         }
         Some("e1-fault") => e1::faults::worker(args),
+        Some("e2-c05") => simcore::e2::c05::worker(args),
+        Some("e2-c06") => simcore::e2::c06::worker(args),
+        Some("e2-c20") => simcore::e2::c20::worker(args),
+        Some("e2-c12") => simcore::e2::faults::worker(args),
         Some("e1-fault-replay") => e1::faults::replay_worker(args),
         _ => harness_fail("unknown worker"),
     }
